@@ -9,6 +9,56 @@ import sys
 import traceback
 
 
+def _optimized_pass(ctx, pid):
+    """Environment deviation 'assertions stripped': the whole quick exploration once more in a child interpreter started
+    with PYTHONOPTIMIZE=1 (inherited by pool workers and by first-use child interpreters), against the same oracle.
+    The library has >100 assert statements; a property that only holds while they execute does not hold for a user
+    running python -O.  Violations of the child are merged under their own keys (so known findings still match)."""
+    import glob
+    import shutil
+    import subprocess
+    import tempfile
+    from vf.core.evidence import Acc
+    out = tempfile.mkdtemp(prefix="vf-pyopt-")
+    acc = Acc()
+    try:
+        env = dict(os.environ, PYTHONOPTIMIZE="1", VERIF_OUT=out, VERIF_TIER="quick")
+        r = subprocess.run([sys.executable, "-O", "-m", "vf.cli", pid, "--tier", "quick"], env=env,
+                           capture_output=True, text=True)
+        if r.returncode not in (0, 1):
+            print(r.stdout[-2000:], r.stderr[-4000:], file=sys.stderr)
+            raise RuntimeError("python -O pass of %s ended with exit %d" % (pid, r.returncode))
+        try:
+            with open(os.path.join(out, "evidence", "%s.json" % pid)) as f:
+                ev = json.load(f)
+            cov = ev.get("coverage", ev)
+            acc.count(states=int(cov.get("states", 0)), transitions=int(cov.get("transitions", 0)),
+                      evaluations=int(cov.get("evaluations", 0) or cov.get("traces_validated_against_impl", 0)),
+                      nontrivial=int(cov.get("distinct_nontrivial", 0)))
+            for c in cov.get("caps_hit", []) or []:
+                acc.cap("python -O pass: %s" % c)
+        except (OSError, ValueError):
+            pass
+        for p in sorted(glob.glob(os.path.join(out, "replays", "%s-*.json" % pid))):
+            with open(p) as f:
+                rec = json.load(f)
+            py = None
+            tp = os.path.join(out, "replays", "test_%s" % os.path.basename(p).replace("-", "_").replace(".json", ".py"))
+            if os.path.exists(tp):
+                with open(tp) as f:
+                    py = "# NOTE: seen with assertions stripped - run with PYTHONOPTIMIZE=1\n" + f.read()
+            acc.violation(rec.get("key", os.path.basename(p)), "[python -O] %s" % rec.get("what", ""),
+                          {"interpreter": "PYTHONOPTIMIZE=1", "case": rec.get("case")}, py)
+        for line in r.stdout.splitlines():
+            if line.startswith("KNOWN-FINDING"):
+                acc.outcome("python -O: known finding reported")
+        acc.outcome("python -O pass exit %d" % r.returncode)
+        acc.note("command", "PYTHONOPTIMIZE=1 python -O -m vf.cli %s --tier quick" % pid)
+    finally:
+        shutil.rmtree(out, ignore_errors=True)
+    ctx.merge_part("python-O-pass", acc)
+
+
 def main(argv=None):
     ap = argparse.ArgumentParser()
     ap.add_argument("pid")
@@ -62,6 +112,9 @@ def main(argv=None):
             traceback.print_exc()
             print("HARNESS-FAULT: %s" % e, file=sys.stderr)
             return 2
+    if (a.tier == "thorough" or os.environ.get("VERIF_PYOPT_PASS") == "1") and not sys.flags.optimize \
+            and os.environ.get("VERIF_PYOPT_PASS") != "0" and not a.only:
+        _optimized_pass(ctx, pid)
     rc = ctx.finish()
     print("%s tier=%s seed=%d states=%d transitions=%d executions=%d nontrivial=%d outcomes=%d violations=%d wall=%.1fs%s" % (
         pid, a.tier, seed, ctx.states, ctx.transitions, ctx.evaluations, ctx.nontrivial, len(ctx.outcomes),
